@@ -533,6 +533,23 @@ Proof.
     + apply IH.
 Qed.
 
+(* the loop over both oracles follows the loop of Model/Driver.v until a print fails *)
+Lemma perform_io_spec : forall wr out_ok quiet gs done,
+  match perform_io wr out_ok quiet gs done with
+  | GDone acts => perform wr gs done = ODone acts
+  | GWriteFailed acts => perform wr gs done = OWriteFailed acts
+  | GPrintFailed _ => out_ok = false
+  end.
+Proof.
+  intros wr out_ok quiet gs. induction gs as [|g r IH]; intro done; simpl; auto.
+  destruct (action_of g) as [f|name f|] eqn:A.
+  - destruct out_ok; [apply IH | reflexivity].
+  - destruct (negb quiet && negb out_ok) eqn:Q.
+    + destruct out_ok; [rewrite andb_false_r in Q; discriminate | reflexivity].
+    + destruct (wr name); [apply IH | reflexivity].
+  - apply IH.
+Qed.
+
 (* ---------------------------------------------------------------- driver::assemble_with_command on the modelled shape *)
 Section DriverGlue.
 Variable asm : report -> aout.
@@ -543,38 +560,48 @@ Hypothesis Hasm : forall r, well_topped r = true ->
   | APanicUnwrap | APanicAssert => False
   end.
 
-Definition awc_statement (c : command) (wr : text -> bool) (out : dout) : Prop :=
+Definition awc_statement (c : command) (wr : text -> bool) (out_ok : bool) (out : dout) : Prop :=
   (d_result out = DrOk \/ d_result out = DrErr \/ d_result out = DrDiverge) /\
   (d_result out = DrOk ->
-     has_error (d_report out) = false /\ d_failed_write out = None /\
+     has_error (d_report out) = false /\ d_failed_write out = None /\ d_failed_print out = false /\
      (((c_help c = true \/ c_version c = true) /\ d_acts out = []) \/
       (run_command c true wr = ODone (d_acts out) /\ exists a r, d_asm out = Some (a, r) /\ clean_success a r))) /\
   (d_result out = DrErr ->
      has_error (d_report out) = true /\
      ((d_acts out = [] /\ d_failed_write out = None) \/
-      (exists name, d_failed_write out = Some name /\ wr name = false /\ run_command c true wr = OWriteFailed (d_acts out)))) /\
+      (exists name, d_failed_write out = Some name /\ wr name = false /\ run_command c true wr = OWriteFailed (d_acts out)) \/
+      (d_failed_print out = true /\ out_ok = false))) /\
   ((d_acts out <> [] \/ d_failed_write out <> None) ->
-     exists a r, d_asm out = Some (a, r) /\ clean_success a r /\ d_clean_at_actions out = true).
+     exists a r, d_asm out = Some (a, r) /\ clean_success a r /\ d_clean_at_actions out = true) /\
+  (d_failed_print out = true -> out_ok = false).
 
 Ltac no_actions := intros [K|K]; exfalso; apply K; reflexivity.
-Ltac red_out := cbn [run_dsteps finish d_result d_acts d_failed_write d_report d_asm d_clean_at_actions
-                     ds_report ds_asm ds_acts ds_clean ds_output_seen app negb].
+Ltac red_out := cbn [run_dsteps finish print_failed d_result d_acts d_failed_write d_failed_print d_report d_asm d_clean_at_actions
+                     ds_report ds_asm ds_acts ds_clean ds_output_seen app negb andb].
+(* a step that ends the run before anything was done: Ok (help / version) *)
+Ltac early_ok := red_out; split; [auto|]; split; [|split; [(let X := fresh "X" in intro X; discriminate X) | split; [no_actions | (let X := fresh "X" in intro X; discriminate X)]]];
+  intros _; split; [reflexivity|]; split; [reflexivity|]; split; [reflexivity|]; left; auto.
+(* ... or Err with a fresh error and nothing done *)
+Ltac early_err := red_out; split; [auto|]; split; [(let X := fresh "X" in intro X; discriminate X)|]; split; [|split; [no_actions | auto]];
+  intros _; split; [first [reflexivity | rewrite has_error_app; simpl; apply orb_true_r]|]; left; auto.
 
-Theorem awc_spec : forall c wr, awc_statement c wr (assemble_with_command modelled_driver_shape c wr asm []).
+Theorem awc_spec : forall c wr out_ok, awc_statement c wr out_ok (assemble_with_command modelled_driver_shape c wr out_ok asm []).
 Proof.
-  intros c wr. unfold awc_statement, assemble_with_command, modelled_driver_shape, dstate0.
+  intros c wr out_ok. unfold awc_statement, assemble_with_command, modelled_driver_shape, dstate0.
   cbn [run_dsteps ds_report ds_asm ds_acts ds_clean ds_output_seen].
   destruct (c_help c) eqn:Hh.
-  { cbn. split; [auto|]. split; [|split; [intro X; discriminate X | no_actions]].
-    intros _. split; [reflexivity|]. split; [reflexivity|]. left. auto. }
+  { destruct out_ok; [early_ok | early_err]. }
   destruct (c_version c) eqn:Hv.
-  { cbn. split; [auto|]. split; [|split; [intro X; discriminate X | no_actions]].
-    intros _. split; [reflexivity|]. split; [reflexivity|]. left. auto. }
+  { destruct out_ok; [early_ok | early_err]. }
   destruct (c_inputs c) as [|i0 ir] eqn:Hi.
-  { cbn. split; [auto|]. split; [intro X; discriminate X|]. split; [|no_actions].
+  { red_out. split; [auto|]. split; [intro X; discriminate X|]. split; [|split; [no_actions | intro X; discriminate X]].
     intros _. split; [reflexivity|]. left. auto. }
+  destruct (negb (c_quiet c) && negb out_ok) eqn:Pq.
+  { (* the progress lines cannot be printed: Err before assembling *)
+    assert (Eo : out_ok = false) by (destruct out_ok; [rewrite andb_false_r in Pq; discriminate | reflexivity]).
+    subst out_ok. early_err. }
   assert (A := Hasm [] eq_refl). destruct (asm []) as [a rep| | |] eqn:Ea; try contradiction.
-  2:{ cbn. split; [auto|]. split; [intro X; discriminate X|]. split; [intro X; discriminate X | no_actions]. }
+  2:{ red_out. split; [auto|]. split; [intro X; discriminate X|]. split; [intro X; discriminate X | split; [no_actions | intro X; discriminate X]]. }
   cbn [ds_report ds_asm ds_acts ds_clean ds_output_seen].
   destruct (r_output a) eqn:Ho.
   - (* assemble returned an output *)
@@ -583,17 +610,26 @@ Proof.
     cbn [get]. rewrite Ed, Edf, Eit. cbn [negb ds_report ds_asm ds_acts ds_clean ds_output_seen app].
     assert (R : run_command c true wr = perform wr (c_groups c) []).
     { unfold run_command. rewrite Hh, Hv, Hi. reflexivity. }
-    destruct (perform_cases wr (c_groups c) []) as [(acts & P & Fu)|(acts & name & P & Fu & W)]; rewrite P.
-    + red_out. rewrite Ec. red_out. split; [auto|]. split; [|split; [intro X; discriminate X|]].
-      * intros _. split; [reflexivity|]. split; [reflexivity|]. right. split; [congruence|]. exists a, rep. auto.
+    assert (Sp := perform_io_spec wr out_ok (c_quiet c) (c_groups c) []).
+    destruct (perform_io wr out_ok (c_quiet c) (c_groups c) []) as [acts|acts|acts] eqn:P.
+    + (* every group acted; the closing progress line can be printed (or is not printed) *)
+      cbn [run_dsteps ds_report ds_asm ds_acts ds_clean ds_output_seen app]. try rewrite Pq.
+      red_out. rewrite Ec. red_out. split; [auto|]. split; [|split; [intro X; discriminate X | split; [|intro X; discriminate X]]].
+      * intros _. split; [reflexivity|]. split; [reflexivity|]. split; [reflexivity|]. right. split; [congruence|]. exists a, rep. auto.
       * intros _. exists a, rep. auto.
-    + red_out. rewrite Fu, Ec. red_out. split; [auto|]. split; [intro X; discriminate X|]. split.
+    + (* a file could not be written *)
+      destruct (perform_cases wr (c_groups c) []) as [(acts' & P' & _)|(acts' & name & P' & Fu & W)]; [congruence|].
+      red_out. rewrite Fu, Ec. red_out. split; [auto|]. split; [intro X; discriminate X|]. split; [|split; [|intro X; discriminate X]].
       * intros _. split; [rewrite has_error_app; simpl; apply orb_true_r|].
-        right. exists name. split; [reflexivity|]. split; [exact W|]. congruence.
+        right. left. exists name. split; [reflexivity|]. split; [exact W|]. congruence.
+      * intros _. exists a, rep. auto.
+    + (* a printout could not be written *)
+      red_out. rewrite Ec. red_out. split; [auto|]. split; [intro X; discriminate X|]. split; [|split; [|intros _; exact Sp]].
+      * intros _. split; [rewrite has_error_app; simpl; apply orb_true_r|]. right. right. auto.
       * intros _. exists a, rep. auto.
   - (* no output: Err(()) before anything is formatted, printed or written *)
     destruct A as [A|A]; [destruct A as (A & _); congruence|]. destruct A as (_ & _ & Ee).
-    red_out. split; [auto|]. split; [intro X; discriminate X|]. split; [|no_actions].
+    red_out. split; [auto|]. split; [intro X; discriminate X|]. split; [|split; [no_actions | intro X; discriminate X]].
     intros _. split; [exact Ee|]. left. auto.
 Qed.
 End DriverGlue.
@@ -601,7 +637,8 @@ End DriverGlue.
 (* a variant of the driver without the `?` after write_bytes reports an error and still returns Ok *)
 Lemma driver_without_try_refuted :
   exists c wr asm, (forall r, asm r = AReturn {| r_ast := true; r_decls := true; r_defs := true; r_iter := true; r_output := true; r_error := false |} r) /\
-    let out := assemble_with_command [DHelp; DVersion; DNoInput; DAssemble; DNeedOutput; DUnwrap FDecls; DUnwrap FDefs; DUnwrap FIter; DGroups false; DReturnOk] c wr asm [] in
+    let out := assemble_with_command [DHelp true; DVersion true; DNoInput; DProgress true; DAssemble; DNeedOutput; DUnwrap FDecls; DUnwrap FDefs; DUnwrap FIter;
+                                      DGroups true false; DResolved true; DReturnOk] c wr true asm [] in
     d_result out = DrOk /\ has_error (d_report out) = true.
 Proof.
   exists {| c_inputs := [[109]]; c_groups := [{| cg_format := Some (mkfmt cli_default_file); cg_print := false; cg_output := Some [111] |}];
@@ -610,6 +647,26 @@ Proof.
          (fun _ => false),
          (fun r => AReturn {| r_ast := true; r_decls := true; r_defs := true; r_iter := true; r_output := true; r_error := false |} r).
   split; [reflexivity|]. vm_compute. auto.
+Qed.
+
+(* the driver before 0dfce82 (println! everywhere, F64): an unwritable standard output is a panic, in every printing path *)
+Definition ex_command (quiet print help : bool) : command :=
+  {| c_inputs := [[109]]; c_groups := [{| cg_format := Some (mkfmt cli_default_file); cg_print := print; cg_output := Some [111] |}];
+     c_quiet := quiet; c_colors := true; c_version := false; c_help := help; c_iters := 10%N; c_defines := [];
+     c_debug_iters := false; c_opt_static := true; c_opt_matcher := true |}.
+Definition ex_asm_ok (r : report) : aout :=
+  AReturn {| r_ast := true; r_decls := true; r_defs := true; r_iter := true; r_output := true; r_error := false |} r.
+
+Lemma println_driver_refuted :
+  d_result (assemble_with_command println_driver_shape (ex_command false false true) (fun _ => true) false ex_asm_ok []) = DrPanic /\   (* --help *)
+  d_result (assemble_with_command println_driver_shape (ex_command false false false) (fun _ => true) false ex_asm_ok []) = DrPanic /\  (* progress lines *)
+  d_result (assemble_with_command println_driver_shape (ex_command true true false) (fun _ => true) false ex_asm_ok []) = DrPanic /\    (* -q -p *)
+  (* the repaired shape on the same three command lines: Err, an error in the report, nothing done *)
+  (forall q p h, let out := assemble_with_command modelled_driver_shape (ex_command q p h) (fun _ => true) false ex_asm_ok [] in
+     (q = false \/ p = true \/ h = true) -> d_result out = DrErr /\ has_error (d_report out) = true /\ d_acts out = [] /\ d_failed_print out = true).
+Proof.
+  repeat split; try (vm_compute; reflexivity);
+    destruct q, p, h; destruct H as [H|[H|H]]; try discriminate H; vm_compute; reflexivity.
 Qed.
 
 (* ---------------------------------------------------------------- the two concrete shapes *)
@@ -698,7 +755,8 @@ Theorem tables_match_source :
   decode_driver c03_driver_steps = Some modelled_driver_shape /\
   c03_cli_returns_driver_result = true /\
   c03_main_exit_on_err <> 0%N /\
-  report_ops_are_pushes c03_report_message_ops = true.
+  report_ops_are_pushes c03_report_message_ops = true /\
+  c03_print_line_reports = true /\ c03_driver_println_free = true /\ c03_print_all_ignores_write_errors = true.
 Proof. repeat split; try (vm_compute; reflexivity). vm_compute. discriminate. Qed.
 
 Theorem source_shape_ok : forall sh,
@@ -710,47 +768,50 @@ Qed.
 Theorem outcome_exclusive : forall a r, ~ (clean_success a r /\ loud_failure a r).
 Proof. intros a r [(A & _) (B & _)]. congruence. Qed.
 
-Definition driver_statement (gs : list pgroup) (c : command) (wr : text -> bool) (out : dout) : Prop :=
+(* out_ok: can the standard output be written (a permanent fault when false) *)
+Definition driver_statement (gs : list pgroup) (c : command) (wr : text -> bool) (out_ok : bool) (out : dout) : Prop :=
   (d_result out = DrOk \/ d_result out = DrErr \/ d_result out = DrDiverge) /\
   (d_result out = DrOk ->
-     exit_status c03_main_exit_on_err (d_result out) = Some 0%N /\ has_error (d_report out) = false /\ d_failed_write out = None /\
+     exit_status c03_main_exit_on_err (d_result out) = Some 0%N /\ has_error (d_report out) = false /\
+     d_failed_write out = None /\ d_failed_print out = false /\
      (((c_help c = true \/ c_version c = true) /\ d_acts out = []) \/
       (d_acts out = map action_of (c_groups c) /\ List.length (d_acts out) = List.length gs /\ Forall acts_once (d_acts out)))) /\
   (d_result out = DrErr ->
      (exists n, exit_status c03_main_exit_on_err (d_result out) = Some n /\ n <> 0%N) /\ has_error (d_report out) = true /\
-     (d_acts out = [] \/ exists name, d_failed_write out = Some name /\ wr name = false)) /\
+     (d_acts out = [] \/ (exists name, d_failed_write out = Some name /\ wr name = false) \/ (d_failed_print out = true /\ out_ok = false))) /\
   ((d_acts out <> [] \/ d_failed_write out <> None) ->
-     exists a r, d_asm out = Some (a, r) /\ clean_success a r /\ d_clean_at_actions out = true).
+     exists a r, d_asm out = Some (a, r) /\ clean_success a r /\ d_clean_at_actions out = true) /\
+  (d_failed_print out = true -> out_ok = false).
 
-Theorem driver_spec : forall St (sem : pkind -> St -> report -> option St * report) loop_done (init : command -> St) fuel gs wr c,
+Theorem driver_spec : forall St (sem : pkind -> St -> report -> option St * report) loop_done (init : command -> St) fuel gs wr out_ok c,
   obligations St sem -> parse_command gs = COk c ->
-  driver_statement gs c wr
-    (drive modelled_driver_shape gs wr (fun c r => TopShape.assemble St sem loop_done modelled_shape fuel (init c) r)).
+  driver_statement gs c wr out_ok
+    (drive modelled_driver_shape gs wr out_ok (fun c r => TopShape.assemble St sem loop_done modelled_shape fuel (init c) r)).
 Proof.
-  intros St sem loop_done init fuel gs wr c Hob Hc. unfold drive. rewrite Hc.
+  intros St sem loop_done init fuel gs wr out_ok c Hob Hc. unfold drive. rewrite Hc.
   assert (Hasm : forall r, well_topped r = true -> match TopShape.assemble St sem loop_done modelled_shape fuel (init c) r with
                            | AReturn a rep => clean_success a rep \/ loud_failure a rep
                            | ADiverge => True
                            | _ => False end)
     by (intros r W; exact (assemble_outcome St sem loop_done Hob modelled_shape modelled_shape_ok fuel (init c) r W)).
-  destruct (awc_spec _ Hasm c wr) as (R & Ok & Er & Ac).
-  set (out := assemble_with_command modelled_driver_shape c wr
+  destruct (awc_spec _ Hasm c wr out_ok) as (R & Ok & Er & Ac & Fp).
+  set (out := assemble_with_command modelled_driver_shape c wr out_ok
                 (fun r => TopShape.assemble St sem loop_done modelled_shape fuel (init c) r) []) in *.
-  unfold driver_statement. split; [exact R|]. split; [|split; [|exact Ac]].
-  - intro E. destruct (Ok E) as (A & B & C). rewrite E. split; [reflexivity|]. split; [exact A|]. split; [exact B|].
+  unfold driver_statement. split; [exact R|]. split; [|split; [|split; [exact Ac | exact Fp]]].
+  - intro E. destruct (Ok E) as (A & B & B' & C). rewrite E. split; [reflexivity|]. split; [exact A|]. split; [exact B|]. split; [exact B'|].
     destruct C as [C|(C & _)]; [left; exact C|]. right.
     exact (run_one_action_per_group gen_tables gs c true wr (d_acts out) Hc C).
   - intro E. destruct (Er E) as (A & B). rewrite E. split.
     + exists c03_main_exit_on_err. split; [reflexivity|]. exact (proj1 (proj2 (proj2 (proj2 tables_match_source)))).
-    + split; [exact A|]. destruct B as [(B & _)|(name & B1 & B2 & _)]; [left; exact B | right; exists name; auto].
+    + split; [exact A|]. destruct B as [(B & _)|[(name & B1 & B2 & _)|B]]; [left; exact B | right; left; exists name; auto | right; right; exact B].
 Qed.
 
-Theorem driver_bad_command : forall gs wr asm e, parse_command gs = CErr e ->
-  let out := drive modelled_driver_shape gs wr asm in
+Theorem driver_bad_command : forall gs wr out_ok asm e, parse_command gs = CErr e ->
+  let out := drive modelled_driver_shape gs wr out_ok asm in
   d_result out = DrErr /\ d_acts out = [] /\ d_failed_write out = None /\ has_error (d_report out) = true /\ d_asm out = None.
-Proof. intros gs wr asm e H. unfold drive. rewrite H. simpl. auto. Qed.
+Proof. intros gs wr out_ok asm e H. unfold drive. rewrite H. simpl. auto. Qed.
 
-(* non-vacuity of the driver theorem: `customasm m -o o` with an output that cannot be written / that can *)
+(* non-vacuity of the driver theorem: `customasm m -o o` with an output that cannot be written / that can; stdout unwritable *)
 Definition ex_groups : list pgroup :=
   [{| pg_format := None; pg_output := Some [111]; pg_print := false; pg_quiet := false; pg_version := false; pg_help := false;
       pg_defines := []; pg_debug_iters := false; pg_no_static := false; pg_no_matcher := false; pg_color := None; pg_iters := None;
@@ -758,9 +819,11 @@ Definition ex_groups : list pgroup :=
 
 Example driver_example :
   let asm := fun (c : command) r => TopShape.assemble unit (fun _ _ _ => (Some tt, [])) (fun _ => true) modelled_shape 1 tt r in
-  d_result (drive modelled_driver_shape ex_groups (fun _ => true) asm) = DrOk /\
-  List.length (d_acts (drive modelled_driver_shape ex_groups (fun _ => true) asm)) = 1%nat /\
-  d_result (drive modelled_driver_shape ex_groups (fun _ => false) asm) = DrErr /\
-  d_failed_write (drive modelled_driver_shape ex_groups (fun _ => false) asm) = Some [111] /\
-  d_acts (drive modelled_driver_shape ex_groups (fun _ => false) asm) = [].
+  d_result (drive modelled_driver_shape ex_groups (fun _ => true) true asm) = DrOk /\
+  List.length (d_acts (drive modelled_driver_shape ex_groups (fun _ => true) true asm)) = 1%nat /\
+  d_result (drive modelled_driver_shape ex_groups (fun _ => false) true asm) = DrErr /\
+  d_failed_write (drive modelled_driver_shape ex_groups (fun _ => false) true asm) = Some [111] /\
+  d_acts (drive modelled_driver_shape ex_groups (fun _ => false) true asm) = [] /\
+  d_result (drive modelled_driver_shape ex_groups (fun _ => true) false asm) = DrErr /\
+  d_acts (drive modelled_driver_shape ex_groups (fun _ => true) false asm) = [].
 Proof. vm_compute. repeat split. Qed.
